@@ -399,7 +399,13 @@ def models_v1_grace(v, sc, binary):
 
 
 def check_C05(tier):
-    cfgs = [mk("p2sat", [2, 1], 3, "rate", 2, 0, sat=True), mk("p3fsat", [3, 2, 1], 4, "fair", 1, 0, sat=True), mk("p3sat", [3, 2, 1], 6, "rate", 1, 0, sat=True)]
+    huge = mk("p3hugesat", [3, 2, 1], 4, "fair", 1, 0, sat=True)      # priorities 2^64-1, 2, 1: magnitudes TLC cannot carry, mapped to identifiers
+    huge["vals"] = {"3": "18446744073709551615", "2": "2", "1": "1"}
+    half = mk("p3halfsat", [3, 2, 1], 7, "fair", 1, 0, sat=True)
+    half["vals"] = {"3": str(2 ** 63 + 5), "2": str(2 ** 62), "1": "1"}
+    cfgs = [mk("p2sat", [2, 1], 3, "rate", 2, 0, sat=True), mk("p3fsat", [3, 2, 1], 4, "fair", 1, 0, sat=True), mk("p3sat", [3, 2, 1], 6, "rate", 1, 0, sat=True), huge]
+    if tier == "thorough":
+        cfgs.append(half)
     if tier == "thorough":
         cfgs += [mk("p3f3sat", [3, 2, 1], 3, "fair", 1, 0, sat=True), mk("p2revsat", [2, 1], 3, "rev", 2, 0, sat=True),
                  mk("p4sat", [4, 3, 2, 1], 10, "rate", 1, 0, sat=True)]
